@@ -17,6 +17,7 @@ import (
 	"strconv"
 	"strings"
 	"testing"
+	"time"
 
 	"github.com/quickfixgo/quickfix"
 	"github.com/quickfixgo/quickfix/datadictionary"
@@ -64,7 +65,7 @@ func genValidMessage(t *rapid.T, d map[string]*dictPair) ([]byte, string) {
 		dp := d[name]
 		md := dp.spec.Messages[rapid.IntRange(0, len(dp.spec.Messages)-1).Draw(t, "msg")]
 		members, _ := dp.spec.Expand(md.Members, true)
-		items := dp.spec.GenMembers(rapidChooser{t}, members, specxml.GenOpts{OptionalOneIn: 4, MaxEntries: 2, MaxDepth: 2}, 0, false)
+		items := dp.spec.GenMembers(rapidChooser{t}, members, specxml.GenOpts{OptionalOneIn: rapid.SampledFrom([]int{2, 4}).Draw(t, "optional-one-in"), MaxEntries: 2, MaxDepth: 3, EmptyOneIn: 3}, 0, false)
 		rest := []fixwire.Field{fixwire.F(35, md.MsgType), fixwire.F(49, "S"), fixwire.F(56, "T"), fixwire.F(34, "7"), fixwire.F(52, "20240102-03:04:05")}
 		for _, f := range specxml.Flatten(items) {
 			rest = append(rest, fixwire.F(f.Tag, f.Value))
@@ -222,8 +223,8 @@ func exerciseMessage(t vk.TB, d map[string]*dictPair, raw []byte, dictName strin
 		}); p != nil {
 			c09fail(t, "parse", md.name+"/"+panicClass(p), raw, fmt.Sprintf("ParseMessage panicked: %v (mutations %v)", p, muts))
 		}
-		// typed accessors on whatever is in the maps, parsed cleanly or not
-		if p := catch(func() {
+		// typed accessors on whatever is in the maps, parsed cleanly or not (under a watchdog: "nor hangs")
+		if p := catchWatched(t, raw, func() {
 			for si, fm := range []*quickfix.FieldMap{&m.Header.FieldMap, &m.Body.FieldMap, &m.Trailer.FieldMap} {
 				for _, tag := range fm.Tags() {
 					_, _ = fm.GetInt(tag)
@@ -242,11 +243,7 @@ func exerciseMessage(t vk.TB, d map[string]*dictPair, raw []byte, dictName strin
 							if mt, e := m.MsgType(); e == nil {
 								if def, ok := md.ad.Messages[mt]; ok {
 									if fd, ok := def.Fields[int(tag)]; ok && fd.IsGroup() {
-										var tmpl quickfix.GroupTemplate
-										for _, x := range fd.Fields {
-											tmpl = append(tmpl, quickfix.GroupElement(quickfix.Tag(x.Tag())))
-										}
-										_ = fm.GetGroup(quickfix.NewRepeatingGroup(tag, tmpl))
+										_ = fm.GetGroup(quickfix.NewRepeatingGroup(tag, nestedTemplate(fd.Fields, 0)))
 									}
 								}
 							}
@@ -279,6 +276,44 @@ func exerciseMessage(t vk.TB, d map[string]*dictPair, raw []byte, dictName strin
 		}
 	}
 	return parsed
+}
+
+// nestedTemplate builds the group template a dictionary describes, nested groups included.
+func nestedTemplate(fields []*datadictionary.FieldDef, depth int) quickfix.GroupTemplate {
+	var tmpl quickfix.GroupTemplate
+	for _, x := range fields {
+		if x.IsGroup() && depth < 4 {
+			tmpl = append(tmpl, quickfix.NewRepeatingGroup(quickfix.Tag(x.Tag()), nestedTemplate(x.Fields, depth+1)))
+		} else {
+			tmpl = append(tmpl, quickfix.GroupElement(quickfix.Tag(x.Tag())))
+		}
+	}
+	return tmpl
+}
+
+// c09Limit bounds one pass of the accessors over one message (normally well under a millisecond).
+const c09Limit = 60 * time.Second
+
+// catchWatched is catch with a watchdog. A call that does not come back is the "hangs" clause:
+// the input is printed with the violation signature and the process ends (the goroutine is
+// still spinning, and every shrink attempt would hang again).
+func catchWatched(t fataler, raw []byte, f func()) interface{} {
+	done := make(chan interface{}, 1)
+	go func() { done <- catch(f) }()
+	select {
+	case p := <-done:
+		return p
+	case <-time.After(c09Limit):
+		sig := "C09/accessors/hang"
+		if vk.IsKnownOpen("C09", sig) {
+			fmt.Printf("KNOWN-HANG %s\n", sig)
+			os.Exit(0)
+		}
+		saveReplayInput("TestReplay_C09_Input", sig, "accessors\n"+strconv.Quote(string(raw)))
+		fmt.Printf("--- FAIL: TestC09_Message\nVIOLATION-SIG %s :: reading the fields of the parsed message did not return within %v; input %q\n", sig, c09Limit, raw)
+		os.Exit(1)
+	}
+	return nil
 }
 
 func TestC09_Message(t *testing.T) {
